@@ -1374,3 +1374,11 @@ def _(I, ctx, arr, f):
 
 @model('re:^<Vec<u8> as From<&(mut )?str>>::from$', 're:^<Vec<u8> as From<(std::string::)?String>>::from$')
 def _(I, ctx, s): return VecV(list(str_bytes(s)))
+
+
+@model('re:^<(std::option::)?Option<.*> as (std::cmp::)?(Ord|PartialOrd)>::(cmp|partial_cmp)$', 're:^<\\(.*\\) as (std::cmp::)?(Ord|PartialOrd)>::(cmp|partial_cmp)$')
+def _(I, ctx, a, b):
+    c = cmp_values(I, ctx, a, b)
+    from .interp import ordering
+    o = ordering(c)
+    return SOME(o) if ctx.cur_key.endswith('partial_cmp') else o
